@@ -23,7 +23,8 @@ def comparator_fn(ctx, vb):
     for bi, t in vb.calls():
         cb = ctx.facts.body(t.get("res") or "")
         if cb is not None and cb.local_ty(0).startswith("std::result::Result<std::cmp::Ordering"):
-            return cb, bi, t
+            # read in its normalised view: local closures / helpers inlined, combinators expanded
+            return ctx.inl(cb, skip=ctx.domain_api, tag="domain", sugar=True), bi, t
     return None, None, None
 
 
@@ -32,7 +33,7 @@ def key_fns(ctx, vb):
     for bi, t in vb.calls():
         cb = ctx.facts.body(t.get("res") or "")
         if cb is not None and re.match(r"std::option::Option<\(&'?\w* ?str, std::ops::RangeInclusive<usize>\)>", cb.local_ty(0)):
-            out.append((cb, bi, t))
+            out.append((ctx.inl(cb, skip=ctx.domain_api, tag="domain", sugar=True), bi, t))
     return out
 
 
@@ -426,7 +427,7 @@ def run(ctx, out, tier):
                 if bi in blocks and s["rv"]["k"] == "discr":
                     e = E.place(s["rv"]["place"])
                     r = root_local(e)
-                    if r[0] == "var" and any(d[0] == "call" and ctx.facts.body(d[3].get("res") or "") in [k[0] for k in key_fns(ctx, vb)] for d in vb.defs().get(r[1], [])):
+                    if r[0] == "var" and any(d[0] == "call" and (d[3].get("res") or "") in [k[0].id for k in key_fns(ctx, vb)] for d in vb.defs().get(r[1], [])):
                         dl = s["lhs"]["l"]
                         for bj, t in vb.terms():
                             if t["k"] == "switch" and (util.op_place(t["op"]) or {}).get("l") == dl:
